@@ -43,6 +43,32 @@ func TestA_Scenarios(t *testing.T) {
 		{v6factory(v6na), "A:SOLICIT A:REQUEST T:valid/2 A:RENEW T:valid/2 A:REBIND A:RELEASE"},
 		{v6factory(v6both), "A:SOLICIT A:REQUEST A:DECLINE"},
 		{v6factory(v6both), "A:SOLICIT A:REQUEST B:SOLICIT-RC A:RENEW-FOREIGN A:REQUEST-WRONGSID"},
+		// DECLINE / RELEASE / REQUEST naming somebody else's, free or out-of-pool addresses, each followed by a complete
+		// cycle of the free list and a message of the client whose address was named
+		{v4factory(v4wide29), "A:DISCOVER A:REQ-SELECT B:DISCOVER B:REQ-SELECT A:DECLINE-FOREIGN X:CYCLE-DRR B:REQ-RENEW"},
+		{v4factory(v4wide29), "B:DISCOVER B:REQ-SELECT A:DECLINE-FOREIGN X:CYCLE-D X:CYCLE-DRR B:REQ-RENEW"},
+		{v4factory(v4wide29), "A:DISCOVER A:REQ-SELECT B:DISCOVER A:DECLINE-OFFERED X:CYCLE-DRR B:REQ-SELECT"},
+		{v4factory(v4wide29), "B:DISCOVER A:DECLINE-OFFERED X:CYCLE-D B:REQ-SELECT"},
+		{v4factory(v4wide29), "A:DISCOVER A:REQ-SELECT B:DISCOVER B:REQ-SELECT A:RELEASE-FOREIGN X:CYCLE-DRR B:REQ-RENEW"},
+		{v4factory(v4wide29), "B:DISCOVER B:REQ-SELECT A:RELEASE-FOREIGN X:CYCLE-DRR B:REQ-RENEW"},
+		{v4factory(v4wide29), "B:DISCOVER A:RELEASE-OFFERED X:CYCLE-DRR B:REQ-SELECT"},
+		{v4factory(v4wide29), "A:DISCOVER A:REQ-SELECT A:DECLINE X:CYCLE-D X:CYCLE-DRR A:DISCOVER"},
+		{v4factory(v4wide29), "A:DISCOVER A:DECLINE X:CYCLE-DRR A:DISCOVER"},
+		{v4factory(v4wide29), "A:DISCOVER A:REQ-SELECT A:RELEASE X:CYCLE-DRR"},
+		{v4factory(v4wide29), "A:DECLINE-FREE X:CYCLE-DRR A:RELEASE-FREE A:DECLINE-OUTSIDE A:RELEASE-OUTSIDE X:CYCLE-D"},
+		{v4factory(v4wide29), "A:DISCOVER A:REQ-SELECT A:DECLINE-FREE A:REQ-RENEW X:CYCLE-DRR"},
+		{v4factory(v4wide29), "B:DISCOVER B:REQ-SELECT A:REQSEL-FOREIGN A:RENEW-FOREIGN A:REQ-FOREIGN X:CYCLE-DRR B:REQ-RENEW"},
+		{v4factory(v4wide30), "B:DISCOVER B:REQ-SELECT A:DECLINE-FOREIGN X:CYCLE-DRR T:lease/2 X:CYCLE-D B:REQ-RENEW"},
+		{v6factory(v6na), "A:SOLICIT A:REQUEST B:SOLICIT B:REQUEST A:DECLINE-FOREIGN X:CYCLE-SRR B:RENEW"},
+		{v6factory(v6na), "B:SOLICIT A:DECLINE-OFFERED A:RELEASE-OFFERED X:CYCLE-RC B:REQUEST"},
+		{v6factory(v6na), "A:SOLICIT A:REQUEST A:DECLINE X:CYCLE-SRR X:CYCLE-RC A:SOLICIT"},
+		{v6factory(v6both), "A:SOLICIT A:REQUEST B:SOLICIT-RC A:RELEASE-FOREIGN X:CYCLE-SRR B:RENEW"},
+		{v6factory(v6both), "B:SOLICIT-RC A:DECLINE-FOREIGN X:CYCLE-RC B:RENEW"},
+		{v6factory(v6both), "A:SOLICIT A:REQUEST A:RELEASE-BADIAID X:CYCLE-SRR"},
+		{v6factory(v6both), "A:SOLICIT A:REQUEST A:DECLINE-BADIAID X:CYCLE-SRR A:RENEW"},
+		{v6factory(v6both), "A:DECLINE-FREE A:RELEASE-FREE A:DECLINE-OUTSIDE A:RELEASE-OUTSIDE X:CYCLE-SRR"},
+		{v6factory(v6both), "B:SOLICIT-RC A:REQUEST-FOREIGN X:CYCLE-RC B:RENEW"},
+		{v6factory(v6both), "A:SOLICIT A:REQUEST A:RELEASE X:CYCLE-SRR"},
 	}
 	needSocks(t)
 	for i, s := range scs {
